@@ -19,12 +19,12 @@ const MAX_LEN: usize = 16_777_215;
 
 const DEPTHS_QUICK: [usize; 7] = [1, 10, 100, 1_000, 10_000, 100_000, 1_000_000];
 const DEPTHS_THOROUGH: [usize; 9] = [1, 10, 100, 1_000, 10_000, 100_000, 1_000_000, 2_000_000, MAX_LEN / 5];
-const KINDS: usize = 9;
+const KINDS: usize = 12;
 const RUN_BYTES: [u8; 12] = [0x09, 0x00, 0x01, 0x02, 0x03, 0x05, 0x06, 0x08, 0x0A, 0x0B, 0x0C, 0xFF];
 const RUN_LENS: [usize; 3] = [20_000, 1_000_000, 16_777_215];
 
 fn kind_name(kind: usize) -> &'static str {
-    ["nested-strict-arrays", "nested-objects-closed", "nested-objects-unclosed", "nested-ecma-arrays", "mixed-nesting", "nested-arrays-inside-valid-prefix", "array-of-arrays-wide-and-deep", "nested-objects-long-names", "nested-arrays-count-max"][kind]
+    ["nested-strict-arrays", "nested-objects-closed", "nested-objects-unclosed", "nested-ecma-arrays", "mixed-nesting", "nested-arrays-inside-valid-prefix", "array-of-arrays-wide-and-deep", "nested-objects-long-names", "nested-arrays-count-max", "nested-objects-empty-names", "nested-ecma-arrays-empty-names", "mixed-nesting-with-empty-names"][kind]
 }
 
 /// nesting input of `n` levels (truncated to the 16 MiB message limit)
@@ -98,14 +98,70 @@ fn build_nested(kind: usize, n: usize) -> Vec<u8> {
                 v.extend_from_slice(&name);
             }
         }
-        _ => {
+        8 => {
             let n = n.min(MAX_LEN / 5);
             for _ in 0..n {
                 v.extend_from_slice(&[0x0A, 0xFF, 0xFF, 0xFF, 0xFF]);
             }
         }
+        // nesting through properties with an empty name (a lenient decoder may accept them)
+        9 => {
+            let n = n.min(MAX_LEN / 3);
+            for _ in 0..n {
+                v.extend_from_slice(&[0x03, 0, 0]);
+            }
+        }
+        10 => {
+            let n = n.min(MAX_LEN / 7);
+            for _ in 0..n {
+                v.extend_from_slice(&[0x08, 0, 0, 0, 1, 0, 0]);
+            }
+        }
+        _ => {
+            let mut i = 0;
+            while i < n && v.len() + 8 < MAX_LEN {
+                match i % 4 {
+                    0 => v.extend_from_slice(&[0x03, 0, 0]),
+                    1 => v.extend_from_slice(&[0x0A, 0, 0, 0, 1]),
+                    2 => v.extend_from_slice(&[0x08, 0, 0, 0, 0, 0, 0]),
+                    _ => v.extend_from_slice(&[0x03, 0, 1, b'n']),
+                }
+                i += 1;
+            }
+        }
     }
     v.truncate(MAX_LEN);
+    v
+}
+
+/// every marker byte followed by a declared length / count (as u16 and as u32) that promises up
+/// to 4 GiB - in particular values *below* 2^24, which pass an "is it larger than a message?"
+/// sanity check - with nothing or 16 bytes behind it, at top level, as a property value and as
+/// an array element
+fn marker_length_matrix() -> Vec<(String, Vec<u8>)> {
+    let markers: Vec<u8> = (0u8..=0x13).chain([0x20u8, 0x7F, 0x80, 0xFF].into_iter()).collect();
+    let mut lens: Vec<Vec<u8>> = Vec::new();
+    for l in [0xFFFFu16, 0x8000, 0x0100] {
+        lens.push(l.to_be_bytes().to_vec());
+    }
+    for l in [0xFFFF_FFFFu32, 0x7FFF_FFFF, 0x0100_0000, 0x00FF_FFFF, 0x00FF_FFFE, 0x0080_0000, 0x0010_0000, 0x0001_0000] {
+        lens.push(l.to_be_bytes().to_vec());
+    }
+    let prefixes: [(&str, &[u8]); 3] = [("top level", &[]), ("property value", &[0x03, 0, 1, b'a']), ("array element", &[0x0A, 0, 0, 0, 1])];
+    let mut v = Vec::new();
+    for m in markers.iter() {
+        for l in lens.iter() {
+            for (pn, p) in prefixes.iter() {
+                for tail in [0usize, 16] {
+                    let mut b = p.to_vec();
+                    b.push(*m);
+                    b.extend_from_slice(l);
+                    b.extend(std::iter::repeat(b'a').take(tail));
+                    v.push((format!("marker {:#04x} declaring {} as {}, {} bytes behind", m, crate::rng::hex(l), pn, tail), b));
+                }
+            }
+        }
+    }
     v
 }
 
@@ -291,8 +347,8 @@ impl Check for C14 {
     fn plan(&self, tier: Tier) -> Plan {
         let ladder = Self::ladder_cases(tier);
         let counts = 14 * 3;
-        let mut p = Plan::new(ladder + counts + Self::run_cases() + tier.pick(1_500, 150_000), tier.pick(35.0, 420.0));
-        p.mandatory = ladder + counts + Self::run_cases();
+        let mut p = Plan::new(ladder + counts + Self::run_cases() + 3 + tier.pick(12_000, 300_000), tier.pick(35.0, 420.0));
+        p.mandatory = ladder + counts + Self::run_cases() + 3;
         p.cpu_budget_s = 120.0;
         p.workers = 8;
         p.mem_ceiling = 7 << 30;
@@ -336,7 +392,15 @@ impl Check for C14 {
             decode_on_small_stack(input, routes(k2), &what, out);
             return;
         }
-        let k2 = if k2 >= 14 * 3 + runs { k2 - runs } else { k2 };
+        if k2 >= 14 * 3 + runs && k2 < 14 * 3 + runs + 3 {
+            for (what, input) in marker_length_matrix() {
+                out.count("marker_x_declared_length_inputs", 1);
+                decode_on_small_stack(input, routes(k2), &what, out);
+            }
+            out.shape(mix(0xD0, k2));
+            return;
+        }
+        let k2 = if k2 >= 14 * 3 + runs + 3 { k2 - runs - 3 } else { k2 };
         if k2 < 14 * 3 {
             let (what, input) = build_count_input((k2 / 3) as usize, rng);
             out.count("count_field_inputs", 1);
@@ -406,7 +470,7 @@ impl Check for C14 {
         decode_on_small_stack(input, routes(rng.below(3)), &what, out);
     }
     fn rule(&self) -> String {
-        "each input is decoded on a spawned thread with a 2 MiB stack inside a supervised worker, by one of three routes (rml_amf0::deserialize; MessagePayload{type 20/18/17/15}::to_rtmp_message; a ServerSession receiving it as one type-20 message). Mandatory ladder: 9 nesting kinds (strict arrays, closed and unclosed objects, ECMA arrays, mixed, after a valid command prefix, wide-and-deep, long names, arrays with count 2^32-1) x depths {1,10,100,10^3,10^4,10^5,10^6; thorough adds 2*10^6 and 3,355,443 = 16,777,215/5} x 3 routes; 14 count/length inputs (counts 2^31-1 and 2^32-1 with little or no data, declared 65535-byte strings and names with nothing behind, 16,777,215 one-byte values) x 3 routes; runs of 20,000 / 10^6 / 16,777,215 copies of one byte for each marker value, object-end 09, 0B, 0C and FF, x 3 routes; then random, mutated and marker-biased inputs. distinct = (kind, depth, route).".to_string()
+        "each input is decoded on a spawned thread with a 2 MiB stack inside a supervised worker, by one of three routes (rml_amf0::deserialize; MessagePayload{type 20/18/17/15}::to_rtmp_message; a ServerSession receiving it as one type-20 message). Mandatory ladder: 12 nesting kinds (strict arrays, closed and unclosed objects, ECMA arrays, mixed, after a valid command prefix, wide-and-deep, long names, arrays with count 2^32-1, objects / ECMA arrays / a mix nested through properties with an empty name) x depths {1,10,100,10^3,10^4,10^5,10^6; thorough adds 2*10^6 and 3,355,443 = 16,777,215/5} x 3 routes; every marker byte 0x00-0x13, 0x20, 0x7F, 0x80, 0xFF followed by a declared length or count (u16 {0xFFFF, 0x8000, 0x0100}, u32 {2^32-1, 2^31-1, 2^24, 2^24-1, 2^24-2, 2^23, 2^20, 2^16}) with 0 or 16 bytes behind it, at top level, as a property value and as an array element (1,584 inputs x 3 routes); 14 count/length inputs (counts 2^31-1 and 2^32-1 with little or no data, declared 65535-byte strings and names with nothing behind, 16,777,215 one-byte values) x 3 routes; runs of 20,000 / 10^6 / 16,777,215 copies of one byte for each marker value, object-end 09, 0B, 0C and FF, x 3 routes; then random, mutated and marker-biased inputs. distinct = (kind, depth, route).".to_string()
     }
     fn assumptions(&self) -> Vec<String> {
         vec![
@@ -416,7 +480,7 @@ impl Check for C14 {
         ]
     }
     fn required_counters(&self, tier: Tier) -> Vec<String> {
-        let mut v = vec!["count_field_inputs".to_string(), "homogeneous_run_inputs".to_string(), "random_or_mutated_inputs".into(), "route_amf0".into(), "route_payload".into(), "route_session".into(), "decoded_err".into(), "decoded_ok".into()];
+        let mut v = vec!["count_field_inputs".to_string(), "homogeneous_run_inputs".to_string(), "marker_x_declared_length_inputs".to_string(), "random_or_mutated_inputs".into(), "route_amf0".into(), "route_payload".into(), "route_session".into(), "decoded_err".into(), "decoded_ok".into()];
         for d in Self::depths(tier) {
             v.push(format!("ladder_depth_{}", d));
         }
